@@ -11,7 +11,7 @@ LEVEL = "exploration"
 SHARDS = {"quick": 8, "thorough": 16}
 RULE = (
     "generated deployments (1-3 devices, all vector kinds, inheritance, enable flags) behind the real server connection handlers, a "
-    "real network Client connected through fake pipes with generated fragmentation of both directions; target = (device, enabled "
+    "real network Client connected through fake pipes with generated fragmentation of both directions, which may refresh single devices (device-specific getProperties) between its handshake and the write; target = (device, enabled "
     "non-light non-read-only vector, non-empty subset of its enabled elements); values from the element's domain: text "
     "(XML-representable, stripped), switch On/Off, numbers as Python int/float AND as strings in decimal or sexagesimal notation "
     "with ':' ';' or blank separators, byte strings with a format. The client assigns and submits; after settling, a snapshot of "
@@ -103,6 +103,11 @@ def check_write(case):
         stack.compare_views(dep, st_.client, lambda *a: "equal-or-absent")
         if not cands:
             return Info(nontrivial=False, labels=["no-writable-target"])
+        # the application may refresh one device first (Client.handshake(device=...), what waitforevent's polling does too)
+        asked = case.get("ask") or []
+        for a_ in asked:
+            dev_name = dep.specs[a_ % len(dep.specs)]["name"] if a_ < 6 else "NOSUCH"
+            st_.in_loop(lambda dev_name=dev_name: st_.client.handshake(device=dev_name))
         d, g, v = cands[(case["d"] * 7 + case["v"]) % len(cands)]
         spec = dep.specs[d]
         kind = v["kind"]
@@ -236,6 +241,8 @@ case_st = st.fixed_dictionaries(
         "vals": st.lists(val_st, min_size=1, max_size=3),
         # devices whose name is addressed (getProperties of a snooper-to-be) before the driver is constructed
         "early": st.lists(st.integers(0, 2), max_size=2),
+        # device-specific getProperties sent by the client between the global handshake and the write
+        "ask": st.lists(st.integers(0, 6), max_size=2),
     }
 )
 
